@@ -173,6 +173,9 @@ func c01Product(w *mon.W, idx int) {
 	switch {
 	case idx == 0:
 		words = []uint64{}
+		if !c01Check(w, nil) { // a nil bitmap is an empty bitmap too
+			return
+		}
 	case idx < 1+6:
 		words = []uint64{c01Extreme[idx-1]}
 	case idx < 1+6+36:
